@@ -8,6 +8,8 @@ from .core import *
 from .interp import Frame, EXC_BASES, exc_is
 from .contract import SpecCtx
 
+STRUCT_NODE = ['_children', '$cls']
+STRUCT_DICT = ['$mlen', '$mkeyat', '$mpos', '$mval']
 TRANSPARENT_DECORATORS = {'staticmethod', 'classmethod', 'property', 'staticproperty', 'namespace:ayns',
                           'contextlib.contextmanager', 'errors.api_entry', 'api_entry', 'functools.wraps()'}
 RETHROW = {'rethrow_as_preprocess_error': 'PreprocessError', 'rethrow_as_premerge_error': 'PremergeError',
@@ -199,6 +201,12 @@ class CallMixin:
 
     # ------------------------------------------------------------------ contracts at call sites
     def pick_contract(self, cs, fi, args, kwargs, n, fr):
+        want = self.contract.opts.get('use', {}).get(fi.key)
+        if want is not None:
+            for c in cs:
+                if c.name == want:
+                    return c
+            raise Unsupported(f'contract {want!r} of {fi.key} requested by {self.contract.id} does not exist')
         for c in cs:
             if c.opts.get('callee', True):
                 return c
@@ -217,21 +225,55 @@ class CallMixin:
         pre = self.heap.snapshot()
         sc = SpecCtx(self.eng, a, pre, pre)
         sc.interp = self
+        sc.nalloc = run.nalloc
         tag = f'{fi.qualname}@{ln}'
+        # the callee was verified for arguments of the declared kinds only: they are obligations here
+        for p in c.params:
+            v = a.get(p.name)
+            if v is None:
+                continue
+            if p.kind == 'val' and isinstance(v, SV):
+                t = v.t
+                cons = {'bool': sym.is_bool(t), 'int': sym.is_int(t), 'str': sym.is_str(t),
+                        'optbool': z3.Or(sym.is_none(t), sym.is_bool(t)), 'optint': z3.Or(sym.is_none(t), sym.is_int(t)),
+                        'optstr': z3.Or(sym.is_none(t), sym.is_str(t)),
+                        'prim': z3.Or(sym.is_none(t), sym.is_bool(t), sym.is_int(t), sym.is_str(t)),
+                        'key': z3.Or(sym.is_int(t), sym.is_str(t)), 'ref': sym.is_ref(t)}.get(p.kw['vkind'])
+                if cons is not None:
+                    run.oblige(f'call:{tag}.kind-of-{p.name}', cons, kind='pre', lineno=ln)
+            elif p.kind == 'node' and isinstance(v, SV):
+                cls = p.kw['cls']
+                if isinstance(cls, (list, tuple)):
+                    ok = z3.Or([self.heap.cls(sym.r_of(v.t)) == self.eng.class_id(x) for x in cls])
+                elif p.kw.get('exact'):
+                    ok = self.heap.cls(sym.r_of(v.t)) == self.eng.class_id(cls)
+                else:
+                    ok = self.eng.isinstance_term(self.heap.cls(sym.r_of(v.t)), cls)
+                run.oblige(f'call:{tag}.class-of-{p.name}', z3.And(sym.is_ref(v.t), ok), kind='pre', lineno=ln)
         if c.requires is not None:
             req = c.requires(sc)
             for item in _named3(req, 'pre'):
                 nm, g, meta = item
                 static = (meta or {}).get('static')
-                if static and nm in getattr(self, 'entry_static', {}):
-                    # ghost axiom about the static structure, assumed at entry under the same name: it still holds if the
-                    # fields it reads are unchanged on pre-state objects (positive identities)
-                    for f in static:
+                if static and getattr(self, 'entry_static', None) and not all(self.heap.arr(f).eq(self.pre_heap.arr(f)) for f in STRUCT_NODE + STRUCT_DICT):
+                    # clause about the (static) tree structure: proved over the ENTRY structure (where the caller's own
+                    # clause lives), plus a frame obligation: the structure fields are unchanged inside the clause's scope
+                    mix = self.heap.snapshot()
+                    for f in STRUCT_NODE + STRUCT_DICT:
+                        mix.a[f] = self.pre_heap.arr(f)
+                    run.oblige(f'call:{tag}.{nm}', meta['fn'](mix), kind='pre', lineno=ln)
+                    r = run.fresh('sr', sym.I)
+                    sc_ = meta['scope'](r)
+                    ent_ch = sym.r_of(z3.Select(self.pre_heap.arr('_children'), r))
+                    for f in STRUCT_NODE:
                         now, ent = self.heap.arr(f), self.pre_heap.arr(f)
-                        if now.eq(ent):
-                            continue
-                        r = run.fresh('sr', sym.I)
-                        run.oblige(f'call:{tag}.{nm}.unchanged:{f}', z3.Implies(r > 0, z3.Select(now, r) == z3.Select(ent, r)), kind='pre', lineno=ln)
+                        if not now.eq(ent):
+                            run.oblige(f'call:{tag}.{nm}.unchanged:{f}', z3.Implies(sc_, z3.Select(now, r) == z3.Select(ent, r)), kind='pre', lineno=ln)
+                    scd = meta['scope_dict'](r) if meta.get('scope_dict') else sc_
+                    for f in STRUCT_DICT:
+                        now, ent = self.heap.arr(f), self.pre_heap.arr(f)
+                        if not now.eq(ent):
+                            run.oblige(f'call:{tag}.{nm}.unchanged:{f}', z3.Implies(scd, z3.Select(now, ent_ch) == z3.Select(ent, ent_ch)), kind='pre', lineno=ln)
                     continue
                 run.oblige(f'call:{tag}.{nm}', g, kind='pre', lineno=ln)
         # exceptional outcomes
@@ -288,6 +330,8 @@ class CallMixin:
         res = self.make_result(c, sc, fi, n)
         sc2 = SpecCtx(self.eng, a, pre, self.heap, res)
         sc2.interp = self
+        sc2.nalloc = run.nalloc
+        sc2.x = sc.x
         for nm, fn in c.ensures:
             g = fn(sc2)
             for nm2, g2 in _named(g, nm):
@@ -517,18 +561,18 @@ class CallMixin:
         return SV(sym.mk_int(sym.simp(z3.If(i < 0, -i, i))))
 
     def sp_min(self, n, fr):
-        xs = [self.as_int(self.sv(self.ev(a, fr), n)) for a in n.args]
-        r = xs[0]
-        for x in xs[1:]:
-            r = z3.If(x < r, x, r)
-        return SV(sym.mk_int(sym.simp(r)))
+        vs = [self.sv(self.ev(a, fr), n) for a in n.args]
+        r = vs[0].t
+        for v in vs[1:]:
+            r = z3.If(self.as_int(v) < self.as_int(SV(r)), v.t, r)      # the first minimal operand is returned as is
+        return SV(sym.simp(r))
 
     def sp_max(self, n, fr):
-        xs = [self.as_int(self.sv(self.ev(a, fr), n)) for a in n.args]
-        r = xs[0]
-        for x in xs[1:]:
-            r = z3.If(x > r, x, r)
-        return SV(sym.mk_int(sym.simp(r)))
+        vs = [self.sv(self.ev(a, fr), n) for a in n.args]
+        r = vs[0].t
+        for v in vs[1:]:
+            r = z3.If(self.as_int(v) > self.as_int(SV(r)), v.t, r)
+        return SV(sym.simp(r))
 
     def sp_range(self, n, fr):
         xs = [self.as_int(self.sv(self.ev(a, fr), n)) for a in n.args]
@@ -629,6 +673,9 @@ class CallMixin:
 
     def sp_print(self, n, fr):
         return NONE
+
+    def sp_dir(self, n, fr):
+        return OpaqueV('dir', self.ev(n.args[0], fr))
 
     # ------------------------------------------------------------------ built-in methods
     def call_builtin(self, name, a, kw, n, fr, as_cm=False):
